@@ -802,6 +802,70 @@ def rule_axis_argument(ctx, rid='R10'):
             ctx.holds(rid, 'axis=%r -> %s' % (v, 'attached to that axis' if want else 'plain index'))
 
 
+def rule_issorted_provenance(ctx, rid='R11'):
+    """`issorted=True` makes locate_one / locate_many a bare np.searchsorted without the presence check, and locate_slice skip its ordering test: the claim
+    must be the caller's own `issorted` argument or rest on an *increasing-order* test of the labels.  "Monotonic in either direction" (Axis._monotonic,
+    is_monotonic()) is not enough: on a decreasing axis searchsorted returns garbage, and an absent label silently selects its neighbour."""
+    from ..symeval import Evaluator
+    from .. import forwarding as F
+    ctx.rule(rid, 'every issorted= claim handed to the label-lookup routines is the caller\'s own option or an increasing-order test', 6)
+    P = ctx.P
+    names = {'loc', 'locate_one', 'locate_many', 'locate_slice', '_locate_slice_strict'}
+
+    def first_last(t):
+        subs = [x for x in T.subterms(t) if x[0] == 'sub' and x[2] in (const(0), const(-1))]
+        return any(a[1] == b[1] and a[2] != b[2] for a in subs for b in subs)
+
+    def justified(t, own):
+        if t == own or t in (T.CONST_FALSE, T.CONST_NONE):
+            return True
+        if t[0] == 'cmp' and t[1] in ('<', '<=') and first_last(t):
+            return True
+        if t[0] == 'cmp' and t[1] == '==' and t[3] == const(0) and ((t[2][0] == 'attr' and t[2][2] == 'size') or (t[2][0] == 'call' and T.call_name(t[2]) == 'len')):
+            return True          # an empty axis is sorted
+        if t[0] == 'call' and T.dotted(t[1]) in ('np.all', 'all') and t[2] and t[2][0][0] == 'cmp' and any(x[0] == 'slice' for x in T.subterms(t[2][0])):
+            return True
+        if t[0] == 'boolop':
+            parts = [justified(x, own) for x in t[2]]
+            return any(parts) if t[1] == 'and' else all(parts)
+        if t[0] == 'phi':
+            return all(justified(x, own) for x in t[1] if x[0] != 'carried')
+        if t[0] == 'ifexp':
+            return justified(t[2], own) and justified(t[3], own)
+        return False
+    n = 0
+    for fi in sorted(P.functions.values(), key=lambda f: f.qualname):
+        if fi.file.startswith(('dimarray/io/', 'dimarray/convert/', 'dimarray/plotting', 'dimarray/prettyprinting')) or fi.parent is not None:
+            continue
+        if 'issorted' not in ast.unparse(fi.node) and not any(k in ast.unparse(fi.node) for k in ('.loc(', 'locate_')):
+            continue
+        try:
+            ev = Evaluator(P, fi, mode='join', max_paths=100000)
+            ev.run()
+        except AnalysisError:
+            continue
+        seen = set()
+        own = P_('issorted')
+        for p in ev.paths:
+            for e in p.state.events:
+                if e.kind != 'call' or id(e.node) in seen or T.call_name(e.a) not in names:
+                    continue
+                if T.call_name(e.a) == 'loc' and e.a[1][0] != 'attr':
+                    continue
+                seen.add(id(e.node))
+                v, how = F.passed_value(P, e.a, 'issorted')
+                if v is None:
+                    continue
+                n += 1
+                if justified(v, own):
+                    ctx.holds(rid, '%s -> %s(issorted=%s)' % (fi.qualname.replace('dimarray.', ''), T.call_name(e.a), T.show(v)[:50]))
+                else:
+                    ctx.violated(rid, fi, '%s(issorted=...) claim' % T.call_name(e.a), '%s is told issorted=%s: that is neither the caller\'s own `issorted` option nor an increasing-order test of the labels '
+                                 '(a cached "monotonic" flag is also True for decreasing axes, and stale after relabelling): the lookup becomes a bare np.searchsorted without the '
+                                 'presence check' % (T.call_name(e.a), T.show(v)[:80]), node=e.node)
+    ctx.info('%s: %d issorted claims examined' % (rid, n))
+
+
 def check(ctx):
     rule_orthogonal_indexer(ctx)
     rule_expanded_indexer(ctx)
@@ -813,6 +877,7 @@ def check(ctx):
     rule_bookkeeping(ctx)
     rule_subaxis(ctx)
     rule_axis_argument(ctx)
+    rule_issorted_provenance(ctx)
     ctx.not_decided += ['that argsort + searchsorted + clip returns the right position for every present label (NumPy semantics)',
                         'first-match choice for duplicate labels']
     ctx.trusted += ['numpy.where/argmin/argsort/searchsorted/take documented semantics', 'CPython ast module']
